@@ -2,3 +2,13 @@ type Alias[T: int, *Ts, **P] = Callable[P, tuple[T, *Ts]]
 def generic[T](x: T) -> T: return x
 class Box[T]:
     item: T
+@a
+@b(c)
+def g2[T, *Ts](x: T) -> T: return x
+@d
+@e
+@f.g
+async def g3[**P](): pass
+@h
+@i
+class K2[T](Base): pass
